@@ -13,6 +13,8 @@ DEFS = [
     Tpl("s1p|x-rz", "DEFGATE {n}(%t) a AS SEQUENCE:\n\t{h} a\n\tRZ(%t) a", n=("str", NAMES), h=("str", NAMES)),
     Tpl("s2|x2", "DEFGATE {n} a b AS SEQUENCE:\n\t{h} b a", n=("str", NAMES), h=("str", NAMES)),
     Tpl("s2|x1x1", "DEFGATE {n} a b AS SEQUENCE:\n\t{h} a\n\t{k} b", n=("str", NAMES), h=("str", NAMES), k=("str", NAMES)),
+    Tpl("s2|x1", "DEFGATE {n} a b AS SEQUENCE:\n\t{h} a", n=("str", NAMES), h=("str", NAMES)),
+    Tpl("s1|empty", "DEFGATE {n} a AS SEQUENCE:\n\tH a", n=("str", NAMES)),           # the element is removed after parsing: only the API can build it
     Tpl("s1|dagger", "DEFGATE {n} a AS SEQUENCE:\n\tDAGGER {h} a", n=("str", NAMES), h=("str", NAMES)),
     Tpl("matrix", "DEFGATE {n} AS MATRIX:" + MATRIX, n=("str", NAMES)),
 ]
@@ -24,9 +26,28 @@ BODY = [
     Tpl("g1var", "{g} v", g=("str", NAMES)),
     Tpl("nop", "NOP"),
 ]
-QUICK_DEFS = ("s1|x", "s1|xx", "s1p|xp", "s1p|x-rz", "s2|x2", "matrix")
+QUICK_DEFS = ("s1|x", "s1|xx", "s1p|xp", "s1p|x-rz", "s2|x2", "s2|x1", "s1|empty", "matrix")
+CHAIN_DEFS, CHAIN_BODY = ("s1|x",), ("g1",)
 QUICK_BODY = ("g1", "g1p", "g2", "g1dagger", "g1var")
 ERR_KINDS = ("ParameterCount", "GateModifiersUnsupported", "CyclicSequenceGateDefinition", "QubitCount", "NonFixedQubitArgument")
+
+
+def empty_sequence_value(td, a):
+    """remove the elements of a parsed sequence definition (mirsym Instruction value)"""
+    gd = a.fields[0]
+    seq = gd.fields[td.structs["GateDefinition"].index("specification")].fields[0]
+    seq.fields[td.structs["DefGateSequence"].index("gates")] = VecObj([])
+    return a
+
+
+def empty_sequence_tree(td, t):
+    gd = t[1][0]
+    f = list(gd[1])
+    i = td.structs["GateDefinition"].index("specification")
+    seq = f[i][1][0]
+    sf = list(seq[1]); sf[td.structs["DefGateSequence"].index("gates")] = []
+    f[i] = (f[i][0], [(seq[0], sf)])
+    return (t[0], [(gd[0], f)])
 
 
 class Problems(Exception):
@@ -198,6 +219,9 @@ def oracle_c21(req, decide, td, defs, body, selected, obs, m=None):
         req("entry-points:same-body", "value", and_all(tree_eq(x, y, m) for x, y in zip(p["body"], q["body"])))
     if req("entry-points:same-definitions", "length", len(p["defs"]) == len(q["defs"])):
         req("entry-points:same-definitions", "value", and_all(tree_eq(x, y, m) for x, y in zip(p["defs"], q["defs"])))
+    req("entry-points:programs-equal", "", obs.get("programs_equal"))
+    from c11 import set_eq
+    req("entry-points:same-used-qubits", "", set_eq(p["used_qubits"], q["used_qubits"], m))
     ref = reference(td, decide, defs, body, selected, m)
     if "err" in ref: return            # C20's subject
     check_map(req, td, q["source_map"], body, ref["per_source"], q["body"], m, "top")
@@ -233,10 +257,14 @@ class SeqCheck(Check):
 
     def path(self, m):
         td = m.td
-        k = m.choose([(j, None) for j in range(0, self.K[m.tier] + 1)])
-        shapes = [m.choose([(t.name, None) for t in self.def_tpls(m.tier)]) for _ in range(k)]
-        n = m.choose([(j, None) for j in range(1, self.N[m.tier] + 1)])
-        bnames = [m.choose([(t.name, None) for t in self.body_tpls(m.tier)]) for _ in range(n)]
+        K = self.K[m.tier]
+        # one more definition when every definition is a one-element sequence (chains of three: reachability over two hops)
+        k = m.choose([(j, None) for j in range(0, K + 2)])
+        dnames = [t.name for t in self.def_tpls(m.tier)] if k <= K else list(CHAIN_DEFS)
+        shapes = [m.choose([(x, None) for x in dnames]) for _ in range(k)]
+        n = m.choose([(j, None) for j in range(1, self.N[m.tier] + 1)]) if k <= K else 1
+        bn = [t.name for t in self.body_tpls(m.tier)] if k <= K else list(CHAIN_BODY)
+        bnames = [m.choose([(x, None) for x in bn]) for _ in range(n)]
         m.ctx = {"shapes": shapes, "body": bnames}
         by = {t.name: t for t in DEFS + BODY}
         sel = [m.fresh_bool(f"sel_{x}") for x in NAMES]
@@ -245,6 +273,7 @@ class SeqCheck(Check):
         defs, body = [], []
         for j, s in enumerate(shapes):
             a, hv = instantiate(m, by[s], f"d{j}_")
+            if s == "s1|empty": a = empty_sequence_value(td, a)
             defs.append(to_tree(m, a))
             m.call_path("Program::add_instruction", [Ref(cell, 0), a])
         for j, s in enumerate(bnames):
@@ -268,7 +297,7 @@ class SeqCheck(Check):
             zm = m.solver.model()
             mdl = m.model_dict(zm); mdl["_ctx"] = m.ctx
             c = self.case("sample", "", mdl)
-            c["obs"] = json_tree(eval_tree({k: ({kk: vv for kk, vv in v.items() if kk in ("body", "diverges")} if "err" not in v else {"err": err_kind(eval_tree(v["err"], zm, None))}) for k, v in obs.items()}, zm, None))
+            c["obs"] = json_tree(eval_tree({k: ({kk: vv for kk, vv in v.items() if kk in ("body", "diverges")} if "err" not in v else {"err": err_kind(eval_tree(v["err"], zm, None))}) for k, v in obs.items() if k in ("plain", "mapped")}, zm, None))
             return c
         return None
 
@@ -299,7 +328,13 @@ class SeqCheck(Check):
                 o = {"body": to_tree(m, prog.fields[pidx.index("instructions")]),
                      "defs": [("GateDefinition", [to_tree(m, d)]) for _, d in prog.fields[pidx.index("gate_definitions")].items]}
                 if key == "mapped": o["source_map"] = to_tree(m, v.fields[1])
+                uq = to_tree(m, m.call_path("Program::get_used_qubits", [Ref([prog], 0)]))
+                o["used_qubits"] = uq[1] if isinstance(uq, tuple) and uq[0] == "#set" else uq
+                o["_prog"] = prog
                 obs[key] = o
+            if all("_prog" in obs.get(k, {}) for k in ("plain", "mapped")):
+                obs["programs_equal"] = m.call_path("<Program as PartialEq>::eq", [Ref([obs["plain"]["_prog"]], 0), Ref([obs["mapped"]["_prog"]], 0)])
+            for k in ("plain", "mapped"): obs.get(k, {}).pop("_prog", None)
         finally:
             m.max_depth = old
         return obs
@@ -312,10 +347,17 @@ class SeqCheck(Check):
         by = {t.name: t for t in DEFS + BODY}
         lines = [by[s].render(hole_values(by[s], f"d{j}_", model)) for j, s in enumerate(ctx["shapes"])]
         lines += [by[s].render(hole_values(by[s], f"b{j}_", model)) for j, s in enumerate(ctx["body"])]
-        return {"program": "\n".join(lines), "selected": [x for x in NAMES if model.get(f"sel_{x}")], "kind": kind, "detail": detail}
+        empty = [j for j, s in enumerate(ctx["shapes"]) if s == "s1|empty"]
+        return {"program": "\n".join(lines), "selected": [x for x in NAMES if model.get(f"sel_{x}")], "empty": empty,
+                "empty_names": [hole_values(by["s1|empty"], f"d{j}_", model)["n"] for j in empty], "kind": kind, "detail": detail}
 
     def native(self, runner, case):
-        r = runner.call({"op": "expand_defgate_sequences", "program": case["program"], "selected": case["selected"]}, timeout=15)
+        # a definition that a later one of the same name replaces is not emptied by name
+        n_defs = sum(1 for l in case["program"].split("\n") if l.startswith("DEFGATE"))
+        names = [l.split()[1].split("(")[0] for l in case["program"].split("\n") if l.startswith("DEFGATE")]
+        last = {nm: j for j, nm in enumerate(names)}
+        empty_names = [names[j] for j in case.get("empty", []) if last[names[j]] == j]
+        r = runner.call({"op": "expand_defgate_sequences", "program": case["program"], "selected": case["selected"], "empty": empty_names}, timeout=15)
         if "plain" not in r:
             if "crash" in r: return {"plain": {"diverges": True}, "mapped": {"diverges": True}, "crash": r["crash"]}, r
             return None, r
@@ -327,9 +369,10 @@ class SeqCheck(Check):
                 x = o["ok"]
                 d = {"body": [parse_debug(t) for t in x["body"]], "defs": [parse_debug(t) for t in x["listing"] if t.startswith("GateDefinition(")]}
                 if key == "mapped": d["source_map"] = parse_debug(x["source_map"])
+                d["used_qubits"] = [parse_debug(t) for t in x["used_qubits"]]
                 obs[key] = d
+        if r.get("programs_equal") is not None: obs["programs_equal"] = r["programs_equal"]
         # the definitions as written (before the program's own replace-by-name): parse each definition text on its own
-        n_defs = sum(1 for l in case["program"].split("\n") if l.startswith("DEFGATE"))
         texts, cur = [], []
         for l in case["program"].split("\n"):
             if l.startswith("\t"): cur.append(l)
@@ -339,6 +382,7 @@ class SeqCheck(Check):
         if cur: texts.append("\n".join(cur))
         pr = runner.call({"op": "parse_instructions", "texts": texts[:n_defs]})
         obs["_defs"] = [parse_debug(x["ok"][0]) for x in pr["results"]]
+        for j in case.get("empty", []): obs["_defs"][j] = empty_sequence_tree(self.td, obs["_defs"][j])
         obs["_src"] = [parse_debug(t) for t in r["source_body"]]
         return obs, r
 
